@@ -88,13 +88,19 @@ PTRARR = [('zarr', ["za", ["b", "utf8"]]), ('parr', ["pa", ["b", "gint"]]), ('ga
 PSCALAR = [('p' + n, ["ps", n]) for n in ('gint8', 'guint8', 'gint16', 'guint16', 'gint32', 'guint32', 'gint', 'gboolean',
                                           'gfloat', 'gunichar', 'gint64', 'gdouble')]
 EXTRA = [(n, t) for n, t in PTRARR if n not in ('parr', 'glist', 'ghash')] + \
-        [('%s[%d]' % (n, k), ["a", t, k]) for k in (1, 2, 3) for n, t in PTRARR] + PSCALAR
+        [('%s[%d]' % (n, k), ["a", t, k]) for k in (1, 2, 3) for n, t in PTRARR] + PSCALAR + [
+            # by-value arrays carrying BOTH fixed-size=N and zero-terminated="1": still N elements
+            ('zt-gint8[3]', ["a", i8, 3, 1]), ('zt-gint16[3]', ["a", ["b", "gint16"], 3, 1]),
+            ('zt-gint32[2]', ["a", i32, 2, 1]), ('zt-gpointer[2]', ["a", ptr, 2, 1]), ('zt-gdouble[1]', ["a", dbl, 1, 1]),
+            ('zt-utf8[2]', ["a", ["b", "utf8"], 2, 1])]
 ATOMS = CORE + VARIANTS + EXTRA
 NCORE = len(CORE)
 NALL = len(CORE) + len(VARIANTS)       # kinds of the all-kinds alphabet
 EXTRA_IDX = list(range(NALL, len(ATOMS)))
 EXTRA_N2_IDX = [i for i in EXTRA_IDX if ATOMS[i][0].endswith('[2]')]
 PS_IDX = [i for i in EXTRA_IDX if ATOMS[i][1][0] == 'ps']
+ATOMS.append(('icb', ["icb"]))           # bare <callback> child of a <record> (structs only, see all_specs)
+ICB = len(ATOMS) - 1
 CB = [n for n, _ in ATOMS].index('cb')
 # scalar kinds used for the exhaustive inner layouts of the nesting families
 INNER = [a for a in CORE if a[0] in ('i8', 'u16', 'i32', 'i64', 'flt', 'dbl', 'ptr', 'bool', 'en', 'arr', 'cb', 'long')]
@@ -369,6 +375,17 @@ def all_specs(tier):
                     out.append(('seq', cont, (x, a, b)))
                     out.append(('seq', cont, (a, x, b)))
                     out.append(('seq', cont, (a, b, x)))
+    # bare <callback> element in a record: alone and with only sub-pointer-aligned members around it
+    sub = (ZSEQ_IDX[0], ZSEQ_IDX[1])             # i8, i32
+    out.append(('seq', 'S', (ICB,)))
+    out.append(('seq', 'S', (ICB, ICB)))
+    for a in sub:
+        out.append(('seq', 'S', (ICB, a)))
+        out.append(('seq', 'S', (a, ICB)))
+        for b2 in sub:
+            out.append(('seq', 'S', (ICB, a, b2)))
+            out.append(('seq', 'S', (a, ICB, b2)))
+            out.append(('seq', 'S', (a, b2, ICB)))
     inner1 = []                                     # inner layouts embedded through every n1 context, one n2 shape
     for ic in 'SU':
         for x in EXTRA_N2_IDX:                      # ... and nested by value in another record
@@ -387,6 +404,7 @@ def all_specs(tier):
             for idx in itertools.product(Z_IDX, repeat=L):
                 inner1.append((ic, idx))
     inner1 += [(ic, idx) for ic in 'SU' for x in PS_IDX for idx in ((x,), (base[0], x))]
+    inner1 += [('S', (ICB,)), ('S', (ICB, sub[1])), ('S', (sub[0], ICB))]
     for ic, idx in inner + inner1:
         for ctx in range(len(N1_CTX)):
             for oc in 'SU':
@@ -562,9 +580,12 @@ def compare_decl(d, env, gcc, ent, part=None):
             probs.append(('size', '%s: typelib size %d, gcc sizeof %d' % (name, tsize, size)))
         if talign != align:
             probs.append(('alignment', '%s: typelib alignment %d, gcc _Alignof %d' % (name, talign, align)))
-        if len(ent['fields']) != len(members):
-            probs.append(('n_fields', '%s: %d members in C, %d FieldBlobs' % (name, len(members), len(ent['fields']))))
+        nf = len([t for t in members if t[0] != 'icb'])      # a bare <callback> member has no FieldBlob
+        if len(ent['fields']) != nf:
+            probs.append(('n_fields', '%s: %d field members in C, %d FieldBlobs' % (name, nf, len(ent['fields']))))
         for i, o in enumerate(offs):
+            if members[i][0] == 'icb':
+                continue
             f = fields.get('m%d' % i)
             if f is None:
                 probs.append(('field-missing', '%s.m%d has no FieldBlob' % (name, i)))
